@@ -1680,6 +1680,65 @@ fn run_rp(ws: &[&str]) -> (String, String) {
     (show_bytes(&got), oracle)
 }
 
+
+// ------------------------------------------------------------------------------------------
+// (ii-h) two writers on one pipe
+
+/// `emit X N [piece]` : writes N bytes `X0 X1 X2 …` (letter X upper-cased for even, lower for odd
+/// positions is not needed: the byte is the letter itself), whole or in pieces, with `write_all`.
+fn emit_main(env: &mut VEnv, args: Vec<Field>) -> BuiltinFuture<'_> {
+    let letter = args.first().and_then(|f| f.value.bytes().next()).unwrap_or(b'A');
+    let n: usize = args.get(1).and_then(|f| f.value.parse().ok()).unwrap_or(0);
+    let piece: usize = args.get(2).and_then(|f| f.value.parse().ok()).unwrap_or(0);
+    Box::pin(async move {
+        // A writes A..Z cyclically from its letter, so that order inside one writer's stream is visible
+        let base = if letter.is_ascii_uppercase() { b'A' } else { b'a' };
+        let data: Vec<u8> = (0..n).map(|i| base + ((i % 26) as u8)).collect();
+        let piece = if piece == 0 { data.len().max(1) } else { piece };
+        for chunk in data.chunks(piece) {
+            if env.system.write_all(Fd::STDOUT, chunk).await.is_err() {
+                return ExitStatus::FAILURE.into();
+            }
+        }
+        ExitStatus::SUCCESS.into()
+    })
+}
+
+fn run_tw(ws: &[&str]) -> (String, String) {
+    let n = kv_n(ws, "n");
+    let piece = kv_n(ws, "piece");
+    let m = kv(ws, "m").and_then(|v| v.parse().ok()).unwrap_or(n);
+    let w = if kv_n(ws, "nowait") != 0 { "" } else { "; wait" };
+    let script = format!("{{ emit A {n} {piece} & emit a {m} {piece}{w}; }} | cat >/out");
+    let mut config = Config::new(&script);
+    config.max_rounds = 400_000;
+    let (out, value) = shell::run_with(
+        config,
+        |env, _| {
+            env.builtins.insert("emit", Builtin::new(Type::Mandatory, emit_main));
+        },
+        |_, state| shell::read_file(state, "/out"),
+    );
+    if out.stuck {
+        return ("TIMEOUT".into(), "FAIL:deadlock".into());
+    }
+    let got: Vec<u8> = value.flatten().unwrap_or_default();
+    // each writer's bytes arrive complete and in that writer's order
+    let in_order = |upper: bool| -> bool {
+        let base = if upper { b'A' } else { b'a' };
+        let mine: Vec<u8> = got.iter().copied().filter(|b| b.is_ascii_uppercase() == upper).collect();
+        mine.len() == (if upper { n } else { m }) && mine.iter().enumerate().all(|(i, b)| *b == base + (i % 26) as u8)
+    };
+    let obs = format!(
+        "len={} A={} a={}",
+        got.len(),
+        if in_order(true) { "ok" } else { "bad" },
+        if in_order(false) { "ok" } else { "bad" }
+    );
+    let oracle = if got.len() == n + m && in_order(true) && in_order(false) { "ok" } else { "FAIL:two-writers" };
+    (obs, oracle.into())
+}
+
 // ------------------------------------------------------------------------------------------
 // case generation
 
@@ -1799,6 +1858,7 @@ fn run_case(case: &str) -> (String, String) {
         Some(&"lim") => run_lim(&ws[1..]),
         Some(&"rd") => run_rd(&ws[1..]),
         Some(&"rp") => run_rp(&ws[1..]),
+        Some(&"tw") => run_tw(&ws[1..]),
         _ => run_ops(case),
     }
 }
@@ -1881,6 +1941,20 @@ fn main() {
                 run(&case, false);
                 if form.contains("pipe") && (thorough || n <= PIPE_SIZE) {
                     run(&format!("{case} mon=1"), false);
+                }
+            }
+        }
+    }
+
+    // (ii-h) two writers on one pipe: only on request (`--two-writers`), because the unchanged tree
+    // deadlocks on some of them (see notes/C14.md "Two writers on one pipe"; witness in corpus/C14)
+    if opts.extra.iter().any(|a| a == "--two-writers") {
+        for n in [10usize, 600, 1025, 3000, 5000] {
+            for m in [10usize, 600, 1025, 2000, 5000] {
+                for piece in [0usize, 100, 600] {
+                    for nowait in 0..2 {
+                        run(&format!("tw n={n} piece={piece} m={m} nowait={nowait}"), false);
+                    }
                 }
             }
         }
